@@ -310,6 +310,10 @@ def make_wrapper(sizes):
         def __init__(self, f, block_size):
             self.f = f
             self.block_size = block_size
+            # the attribute names of wsgiref.util.FileWrapper, the wrapper most servers hand out: code that
+            # special-cases a wrapper by looking at its file must still serve the exact slice
+            self.filelike = f
+            self.blksize = block_size
 
         def __iter__(self):
             for k in sizes:
